@@ -183,6 +183,8 @@ type World struct {
 	// a plain reference whose NAME is computed from other references and contains the separator was evaluated
 	// (such a name is split when it is read, all other names when the string is merged)
 	ComputedDotted bool
+	// an operator replaced a failure after a reference had been re-entered (the re-entry may be what it absorbed)
+	Swallowed bool
 	// a name led through a setting that is an expression itself (the model does not look into its value)
 	ThroughExpr bool
 	Absorbed     bool           // a re-entry was absorbed: a resolver knew the active name, or an operator swallowed the failure
@@ -226,6 +228,7 @@ func (w *World) Reset() {
 	w.Uses = nil
 	w.Absorbed = false
 	w.ComputedDotted = false
+	w.Swallowed = false
 	w.ThroughExpr = false
 }
 
@@ -561,6 +564,7 @@ func (w *World) evalParts(ps []Part) (string, error) {
 func (w *World) swallow() {
 	if w.SawCycle {
 		w.Absorbed = true
+		w.Swallowed = true
 	}
 }
 
